@@ -217,8 +217,24 @@ func fromEntry(ctx context.Context, services coreiface.CoreAPI, sourceEntries []
 		sliced = uniques
 	}
 
+	// Put the source entries that were cut off back in, in place of the
+	// oldest entries that are not source entries themselves
 	missingSourceEntries := entry.Difference(sliced, sourceEntries)
-	result := append(missingSourceEntries, entrySliceRange(sliced, len(missingSourceEntries), len(sliced))...)
+	isSourceEntry := map[string]struct{}{}
+	for _, e := range sourceEntries {
+		isSourceEntry[e.GetHash().String()] = struct{}{}
+	}
+
+	result := missingSourceEntries
+	toReplace := len(missingSourceEntries)
+	for _, e := range sliced {
+		if _, ok := isSourceEntry[e.GetHash().String()]; !ok && toReplace > 0 {
+			toReplace--
+			continue
+		}
+
+		result = append(result, e)
+	}
 
 	return &Snapshot{
 		ID:     result[len(result)-1].GetLogID(),
